@@ -24,6 +24,7 @@ func (e *Engine) freshStr(n int, class string) StrVal {
 	sv := StrVal{bytes: make([]*Term, n)}
 	for k := range sv.bytes {
 		b := e.fresh("c", false)
+		e.newDomain(b.s, 0, 255)
 		e.assertPC(e.classConstraint(b, class))
 		sv.bytes[k] = b
 	}
@@ -98,6 +99,9 @@ func (e *Engine) harnessPrim(fn *ssa.Function, name string, args []Value) (Value
 	case "vpInt":
 		lo, hi := args[0].(*Term), args[1].(*Term)
 		t := e.fresh("i", false)
+		if lo.konst && hi.konst {
+			e.newDomain(t.s, lo.iv, hi.iv)
+		}
 		e.assertPC(tAnd(tCmp("<=", lo, t), tCmp("<=", t, hi)))
 		e.recordPrim("i", t)
 		return t, true
@@ -107,6 +111,7 @@ func (e *Engine) harnessPrim(fn *ssa.Function, name string, args []Value) (Value
 		return t, true
 	case "vpByte":
 		b := e.fresh("c", false)
+		e.newDomain(b.s, 0, 255)
 		e.assertPC(e.classConstraint(b, e.mustStr(args[0], "vpByte class")))
 		e.recordPrim("i", b)
 		return b, true
@@ -119,6 +124,7 @@ func (e *Engine) harnessPrim(fn *ssa.Function, name string, args []Value) (Value
 		max := e.concretize(args[0].(*Term), 0, 64)
 		class := e.mustStr(args[1], "vpStrUpTo class")
 		lt := e.fresh("len", false)
+		e.newDomain(lt.s, 0, int64(max))
 		e.assertPC(tAnd(tCmp("<=", mkInt(0), lt), tCmp("<=", lt, mkInt(int64(max)))))
 		n := e.concretize(lt, 0, max)
 		sv := e.freshStr(n, class)
